@@ -18,6 +18,7 @@ package command
 //	         docker: probe <= timeout + slack. Non-return: parked criterion.
 
 import (
+	"compress/gzip"
 	"bufio"
 	"bytes"
 	"context"
@@ -151,16 +152,36 @@ func (s *c10server) serve(raw net.Conn) {
 	if len(f) < 2 {
 		return
 	}
+	acceptsGzip := false
 	for {
 		h, err := br.ReadString('\n')
 		if err != nil || strings.TrimSpace(h) == "" {
 			break
+		}
+		if hl := strings.ToLower(h); strings.HasPrefix(hl, "accept-encoding:") && strings.Contains(hl, "gzip") {
+			acceptsGzip = true
 		}
 	}
 	s.mu.Lock()
 	s.reqs = append(s.reqs, c10req{f[0], f[1], time.Now()})
 	s.mu.Unlock()
 	b := s.route(f[0], f[1])
+	if b.Mode == "gzip-if-accepted" {
+		// what a real node does (http.compression is on by default): compress when, and only when, the client offers it
+		b.Mode = ""
+		if acceptsGzip {
+			var zb bytes.Buffer
+			zw := gzip.NewWriter(&zb)
+			zw.Write([]byte(b.Body))
+			zw.Close()
+			b.Body = zb.String()
+			extra := map[string]string{"Content-Encoding": "gzip"}
+			for k, v := range b.Extra {
+				extra[k] = v
+			}
+			b.Extra = extra
+		}
+	}
 	c.SetWriteDeadline(time.Now().Add(15 * time.Second))
 	switch b.Mode {
 	case "close":
@@ -271,6 +292,7 @@ func c10primaryBehaviours(forDocker bool) []c10beh {
 		{Name: "object, text/html content type", Status: 200, CT: "text/html", Body: info, Object: true},
 		{Name: "object, no content type", Status: 200, Body: info, Object: true},
 		{Name: "object, chunked encoding", Status: 200, CT: "application/json", Body: info, Mode: "chunked", Object: true},
+		{Name: "object, compressed when the client offers gzip", Status: 200, CT: "application/json", Body: info, Mode: "gzip-if-accepted", Object: true},
 		c10ok("array", `[{"a":1}]`, false),
 		c10ok("string", `"elasticsearch"`, false),
 		c10ok("number", `42`, false),
